@@ -40,7 +40,22 @@ ALL = [f"C{i:02d}" for i in range(1, 45)]
 NOT_YET = "check not built yet (construction in progress, order in DESIGN.md section 10); no claim is made"
 
 
+def load_fragments():
+    d = os.path.join(HERE, "manifest.d")
+    for fn in sorted(os.listdir(d)) if os.path.isdir(d) else []:
+        if fn.endswith(".json"):
+            frag = json.load(open(os.path.join(d, fn)))
+            pid = fn[:-5]
+            if "note" in frag and not frag["note"].startswith("Trusted:"):
+                frag["note"] = COMMON_NOTE + frag["note"]
+            # a fragment only counts once its check module and theorem file exist
+            if os.path.exists(os.path.join(HERE, "props", pid + ".py")) and \
+               os.path.exists(os.path.join(VERIF, "coq", "theories", "Props", pid + ".v")):
+                CHECKS[pid] = frag
+
+
 def main():
+    load_fragments()
     checks = []
     for pid in ALL:
         if pid not in CHECKS:
